@@ -218,3 +218,26 @@ Proof.
   intros A cfg H0 d deny hy p Hb Hv Hk Hp1 Hp2.
   exact (same_verdict_full A cfg d deny hy p H0 (proj1 (valid_deny_facts deny Hv)) Hk Hp1 Hp2).
 Qed.
+
+(* ---- the premise map_normalize A [] = [] cannot be dropped ---- *)
+(* an adapter that maps the empty text to "a": the all-ASCII label "xn--a-" (trailing hyphen) is rejected at once by
+   the fail-fast run, while the marking run "rediscovers" nothing - the mapped stream turns the label into "xn--a-a",
+   which decodes and validates *)
+Definition nonempty_map : adapter :=
+  {| map_normalize := fun l => match l with [] => [97] | _ => l end; normalize_validate := fun l => l;
+     joining_type := fun _ => 0; bidi_class := toy_bc;
+     is_mark := fun _ => false; is_virama := fun _ => false |}.
+Definition W_C11_h0 : list N := [120; 110; 45; 45; 97; 45].    (* "xn--a-" *)
+Lemma w_c11_h0 cfg :
+  Known_C11 nonempty_map cfg W_C11_h0 DENY_EMPTY HAllow = false /\
+  to_ascii nonempty_map cfg W_C11_h0 DENY_EMPTY HAllow DIgnore = Err /\
+  to_unicode nonempty_map cfg W_C11_h0 DENY_EMPTY HAllow = UI false [128; 97] false.
+Proof. destruct cfg; vm_compute; repeat split; reflexivity. Qed.
+Lemma c11_same_verdict_unconditional_refuted : exists A, forall cfg, ~ C11_same_verdict_statement A cfg.
+Proof.
+  exists nonempty_map. intros cfg H. destruct (w_c11_h0 cfg) as (Hk & Ha & Hu).
+  assert (Hb : bytes W_C11_h0) by (unfold W_C11_h0; repeat constructor; unfold is_byte; lia).
+  assert (Hv : valid_deny DENY_EMPTY) by (right; exists T_IDNA_EMPTY_GLYPHLESS, T_IDNA_EMPTY_LIST; reflexivity).
+  specialize (H W_C11_h0 DENY_EMPTY HAllow always_unicode Hb Hv Hk).
+  unfold to_unicode in Hu. rewrite Ha, Hu in H. specialize (H eq_refl eq_refl). discriminate H.
+Qed.
